@@ -1,5 +1,6 @@
 import RallyModel.Ctx
 import RallyModel.Dbl
+import RallyGen.TraceHooks
 import Drivers.Util
 open Lean DUtil
 
@@ -111,6 +112,17 @@ def handle (op : String) (a : Json) : Except String Json := do
       return ok (Json.mkObj [("reads", arr reads), ("ctxs", arr (cs.map (ctxJson s))),
                              ("tasks", arr (s.tnames.reverse.map (taskJson s))),
                              ("late", toJson s.late), ("empty_close", toJson s.emptyClose)]) tags
+  | "hooks" =>
+    let o ← match (← a.getObjValAs? String "outcome") with
+      | "complete" => pure Outcome.complete
+      | "failBeforeHeaders" => pure Outcome.failBeforeHeaders
+      | "failAfterHeaders" => pure Outcome.failAfterHeaders
+      | x => throw s!"unknown outcome {x}"
+    let last := (a.getObjValAs? Bool "last").toOption.getD true
+    let acts := hookActs (decodeReg Gen.TraceHooks.registered) Gen.TraceHooks.endOnFailure o last
+    let name : HookAct → String
+      | .start => "start" | .stop => "end" | .other => "other"
+    return ok (toJson (acts.map name)) [if startsAndEnds acts then "starts-and-ends" else "incomplete"]
   | "collect" =>
     let items ← parseItems (← getArr a "items")
     return ok (Json.mkObj [("order", toJson (collect items)), ("all", toJson (allOps items))])
